@@ -1,6 +1,7 @@
 package rv
 
 import (
+	"fmt"
 	"go/token"
 	"sort"
 	"strings"
@@ -11,7 +12,7 @@ import (
 func init() {
 	Registry["C44"] = RuleDef{Module: ".", Run: runC44,
 		Technique:   "table comparison: URL parameter -> ClientOption field, by data and control dependence on go/ssa of ParseURL",
-		Explanation: "Decides for ParseURL (R44a) that every store into a ClientOption field that depends (by data flow of the stored value or by its dominating conditions) on a query parameter depends on exactly one parameter and writes the field the property's table assigns to it (db->SelectDB, dial_timeout->Dialer.Timeout, write_timeout->ConnWriteTimeout, addr->InitAddress, protocol->AlwaysRESP2, client_cache->DisableCache, client_name->ClientName, max_retries->DisableRetry, master_set->Sentinel.MasterSet, skip_verify->TLSConfig.InsecureSkipVerify; userinfo->Username/Password; path->SelectDB or socket path); (R44b) every table row has such a store; (R44c) every failing parse (Atoi, ParseDuration, ParseBool, url.Parse) is checked and its failure arm returns a non-nil error.",
+		Explanation: "Decides for ParseURL (R44a) that every store into a ClientOption field that depends (by data flow of the stored value or by its dominating conditions) on a query parameter depends on exactly one parameter and writes the field the property's table assigns to it (db->SelectDB, dial_timeout->Dialer.Timeout, write_timeout->ConnWriteTimeout, addr->InitAddress, protocol->AlwaysRESP2, client_cache->DisableCache, client_name->ClientName, max_retries->DisableRetry, master_set->Sentinel.MasterSet, skip_verify->TLSConfig.InsecureSkipVerify; userinfo->Username/Password; path->SelectDB or socket path); (R44b) every table row has such a store; (R44c) every failing parse (Atoi, ParseDuration, ParseBool, url.Parse) is checked and its failure arm returns a non-nil error. (R44d) host and port taken apart with SplitHostPort are joined with JoinHostPort; (R44e) option values come from the URL's decoded accessors, never from a percent-encoded rendering, and the credentials from Username()/Password(); (R44f) the path database number is honoured for every network scheme.",
 		NotDecided:  "the parsing functions' own semantics and the host/port defaulting arithmetic."}
 }
 
@@ -151,6 +152,91 @@ func runC44(r *Report) {
 		}
 	}
 	r.Ob("R44d", fn, "addresses-built-with-JoinHostPort", fn.Pos(), nJoin >= 1, "InitAddress entries are assembled with net.JoinHostPort")
+	// R44e: option values are taken from the URL's decoded accessors (Username(), Password(), Path,
+	// Query()); the percent-encoded renderings (Userinfo.String, URL.String, EscapedPath, RequestURI,
+	// RawQuery, RawPath, Opaque) are never a source of a value - a credential with an escaped
+	// character would be stored still encoded
+	encoded := func(v ssa.Value) string {
+		switch x := v.(type) {
+		case *ssa.Call:
+			switch CalleeName(x) {
+			case "net/url.(*Userinfo).String", "net/url.(*URL).String", "net/url.(*URL).EscapedPath", "net/url.(*URL).RequestURI", "net/url.(*URL).EscapedFragment", "net/url.(*URL).Redacted":
+				return CalleeName(x)
+			}
+		case *ssa.UnOp:
+			if t, f, _, ok := FieldRef(x.X); ok && x.Op == token.MUL && t == "net/url.URL" {
+				switch f {
+				case "RawQuery", "RawPath", "Opaque", "RawFragment":
+					return "URL." + f
+				}
+			}
+		}
+		return ""
+	}
+	for _, f := range WithAnons(fn) {
+		for _, s := range Sites(f, func(in ssa.Instruction) bool { _, ok := in.(*ssa.Store); return ok }) {
+			st := s.Instr.(*ssa.Store)
+			path := optFieldPath(st.Addr)
+			if path == "" {
+				continue
+			}
+			src := ""
+			DependsOn(st.Val, func(x ssa.Value) bool {
+				if e := encoded(x); e != "" {
+					src = e
+				}
+				return false
+			})
+			if src != "" {
+				r.ObSite("R44e", s, "value-from-encoded-rendering:"+path, false, "option "+path+" is derived from the percent-encoded rendering "+src+"; escaped characters stay encoded")
+			}
+			// credentials: the decoded accessors
+			if path == "Username" || path == "Password" {
+				want := "net/url.(*Userinfo)." + path
+				ok := DependsOn(st.Val, func(x ssa.Value) bool {
+					c, isc := x.(*ssa.Call)
+					return isc && CalleeName(c) == want
+				})
+				if DependsOn(st.Val, func(x ssa.Value) bool { return urlSource(x) == "@userinfo" }) {
+					r.ObSite("R44e", s, "credential-from-decoded-accessor:"+path, ok, path+" is taken from Userinfo."+path+"() (decoded)")
+				}
+			}
+		}
+	}
+	// R44f: the database number in the path applies to every network scheme: its store is not
+	// confined to a subset of the accepted schemes
+	for _, s := range Sites(fn, func(in ssa.Instruction) bool { _, ok := in.(*ssa.Store); return ok }) {
+		st := s.Instr.(*ssa.Store)
+		if optFieldPath(st.Addr) != "SelectDB" || !urlSources(st.Val)["@path"] {
+			continue
+		}
+		schemes := map[string]bool{}
+		anyUnrestricted := false
+		for _, cj := range GuardDNF(s.Block, 6) {
+			found := false
+			for _, g := range cj {
+				x, op, y, ok := CmpGuard(g)
+				if !ok || op != token.EQL {
+					continue
+				}
+				sv, iss := ConstString(y)
+				if iss && strings.HasSuffix(Desc(x), ".Scheme") {
+					schemes[sv] = true
+					found = true
+				}
+			}
+			if !found {
+				anyUnrestricted = true
+			}
+		}
+		ok := anyUnrestricted || (schemes["redis"] && schemes["rediss"] && schemes["valkey"] && schemes["valkeys"])
+		var ss []string
+		for k := range schemes {
+			ss = append(ss, k)
+		}
+		sort.Strings(ss)
+		r.ObSite("R44f", s, "path-database-for-every-network-scheme", ok, fmt.Sprintf("the database number of the URL path is honoured for all of redis, rediss, valkey and valkeys; the store is confined to %v", ss))
+	}
 	covered := map[string]map[string]bool{}
 	for _, s := range Sites(fn, func(in ssa.Instruction) bool { _, ok := in.(*ssa.Store); return ok }) {
 		st := s.Instr.(*ssa.Store)
